@@ -8,6 +8,7 @@ import Wormhole.Tie.SrvWs
 import Wormhole.Tie.SrvSumm
 import Wormhole.Tie.SrvTop
 import Wormhole.Tie.SrvSweep
+import Wormhole.Tie.Alloc
 
 namespace Wormhole.Tie
 open Wormhole Wormhole.PySrv
